@@ -28,6 +28,14 @@ func genC14(r *kernel.Rand, sc *kernel.Scenario, run int) {
 			k += 3
 		}
 	}
+	if r.Bool(0.012) {
+		// a balance matrix with each dimension inside its documented limit (1024)
+		// and 65536 entries or more
+		d := [][2]int{{256, 256}, {64, 1024}, {1024, 65}, {300, 300}, {255, 257}}[r.Intn(5)]
+		sh := gen.ValShape{Parts: d[1], Assets: d[0]}
+		args := append([]any{"kind", "Balances", "type", 0, "seed", int64(r.Uint64() >> 2)}, sh.ShapeArgs()...)
+		sc.Steps = append(sc.Steps, kernel.St("val", args...))
+	}
 	for i := 0; i < k; i++ {
 		if r.Bool(0.6) {
 			// the first value of run r has type r mod 17, so every batch covers all types
